@@ -21,6 +21,18 @@ def dl(tier):
 def c16(pid, tier, t0):
     exe = nv.build_harness("c16_uc", "plain", ["c16_uc.c", "peek_regex.c"], replace=["regex"])
     res = nv.run_shards(exe, ["tier=" + tier, "deadline=%d" % dl(tier)], nv.NCPU, dl(tier) + 60)
+    # (c) editor level: the C08 exploration on the multi-byte buffers; only its UTF-8 validity invariant counts here
+    exe2 = nv.build_harness("c08_operators", "plain", ["c08_operators.c"], wraps=WRAPS)
+    r2 = nv.run_shards(exe2, ["tier=" + tier, "deadline=%d" % dl(tier), "only=12"], nv.NCPU, dl(tier) + 120, tag="e")
+    res.viols += [v for v in r2.viols if v[0].startswith("c16")]
+    res.errs += r2.errs
+    res.shards += r2.shards
+    res.done += r2.done
+    res.stats["editor_states_validated"] = r2.stats.get("states", 0)
+    res.stats["transitions"] = res.stats.get("transitions", 0) + r2.stats.get("transitions", 0)
+    res.stats["states"] = res.stats.get("states", 0) + r2.stats.get("states", 0)
+    if r2.stats.get("deadline_hit"):
+        res.stats["deadline_hit"] = 1
     return nv.finish(pid, tier, t0, res, {
         "rule": "every Unicode scalar value U+0001..U+10FFFF (minus surrogates) embedded between neighbours of 1..4 bytes; "
                 "every string of <= maxlen characters over {a, U+00E9, U+20AC, U+1F600, U+0301, newline}; "
@@ -31,7 +43,7 @@ def c16(pid, tier, t0):
                        "private uc_len/uc_dec compared with an independent encoder/segmenter on every enumerated input",
     }, ["character arithmetic on text that is not valid UTF-8 is outside the property",
         "uc_off is compared at character boundaries only",
-        "the editor-level clause (edits keep text valid UTF-8) is decided by the C08 exploration, which validates every line of every reached state"])
+        "the editor-level clause (edits keep text valid UTF-8) is decided by running the C08 exploration on its multi-byte buffers: every line of every reached state is validated"])
 
 
 @check("C17")
@@ -280,6 +292,28 @@ def c07(pid, tier, t0):
                        "the terminator of a non-empty line",
     }, ["counts on $ 0 ^ M and NG beyond the last line are not in the alphabet (neatvi ignores / clamps them, POSIX differs: not adjudicated)",
         "blank-only lines and right-to-left lines are not in the buffers (C17 covers right-to-left layout)", "an empty line is a word for w b e (POSIX wording)"])
+
+
+def _c08(pid, tier, t0, own):
+    exe = nv.build_harness("c08_operators", "plain", ["c08_operators.c"], wraps=WRAPS)
+    res = nv.run_shards(exe, ["tier=" + tier, "deadline=%d" % dl(tier)], nv.NCPU, dl(tier) + 120)
+    return exe, res
+
+
+@check("C08")
+def c08(pid, tier, t0):
+    exe, res = _c08(pid, tier, t0, True)
+    # violations of the UTF-8 invariant belong to C16 (reported there as well); here they still count as failures
+    return nv.finish(pid, tier, t0, res, {
+        "rule": "operators d y c < > g~ gu gU x 31 motions (word, character, line, find, bracket, paragraph, window) with counts on either side and register prefixes \"a \"A; doubled operators with counts; "
+                "x X D C s S Y p P (counts, registers a b 1 2) J r ~ ; inserts i a I A o O with plain, multi-byte, multi-line text and the editing keys ^H ^W ^U ^V; from every cursor position of 6 buffers "
+                "(ASCII, tabs/multi-byte/wide, combining + brackets, empty, single character, nested brackets); sequences over a 16-command core alphabet and pairs over the full one with state matching; "
+                "distinct_nontrivial = distinct (text, cursor, registers) states",
+        "depth_bound": res.stats.get("depth"),
+        "explanation": "real vi mode; after every command the text, cursor and registers \" a b 1..9 are compared with ref_vi: the span runs from the cursor to the unclamped motion target (ref_vi of C07), "
+                       "exclusive, inclusive (f t e E %) or line-wise (j k G + - _ H L M, doubled operator); every line of every reached state is validated as UTF-8 (C16)",
+    }, ["numbered registers are not compared after yanks (the property only speaks of deletions)", "text-adding commands in an empty buffer and multi-line character-wise puts: cursor not compared",
+        "c is literal (cw is not ce), as the property words it", "filters (!) are exercised by C05 and C04, not here"])
 
 
 def replay(path):
